@@ -102,7 +102,7 @@ def check_program(chk, scratch, prog, tier, budget, san=False):
                       {"emb": text})
         return 0
     if lines == "RUN_FAILED":
-        chk.violation("driver-crashed:" + prog.name, "observation driver crashed (rc=%s): %s" % err, {"emb": text})
+        chk.violation(view_run.crash_key(err[0], err[1], prog.name), "observation driver crashed (rc=%s): %s" % err, {"emb": text})
         return 0
     # shard traces of one program over several TLC processes
     nshard = max(1, min(4, len(lines)))
